@@ -207,6 +207,7 @@ def run_tie(R, pid: str) -> None:
     reg = p2l.regenerate(pid, targets)
     if scratch:
         atexit.register(_restore_default, pid)
+        _exit_cleanly_on_sigterm()
     entries = targets[pid]["functions"]
     info: Dict[str, Any] = {
         "generated_file": str(Path(reg["path"]).relative_to(VERIF)),
@@ -438,6 +439,22 @@ def replay(R, rec) -> int:
     print(f"{case.get('function')}: input tokens {toks[1:]}: code under test -> {now}; reference (= hand model) -> {ref}; "
           f"recorded: {case.get('python')} vs {case.get('reference')}")
     return 1 if now != ref else 0
+
+
+def _exit_cleanly_on_sigterm() -> None:
+    """`timeout` sends SIGTERM: turn it into a normal interpreter exit so that the atexit restore runs.  (SIGKILL cannot
+    be caught; then the next run against the default tree finds a text that differs from what it generates and rewrites
+    it — `regenerate` compares contents, never timestamps — so a stale file is repaired, only later.)"""
+    import signal
+    import threading
+
+    if threading.current_thread() is not threading.main_thread():
+        return
+    try:
+        if signal.getsignal(signal.SIGTERM) in (signal.SIG_DFL, None):
+            signal.signal(signal.SIGTERM, lambda *_: sys.exit(143))
+    except (ValueError, OSError):
+        pass
 
 
 def _restore_default(pid: str):
